@@ -39,3 +39,17 @@ impl Topic {
         ensures r == expiry_value(message_expiry, config),
     { Topic::get_message_expiry(message_expiry, config) }
 }
+impl Partition {
+    // copied from units/catalogue_more/prelude.rs, stub `Partition::create` (there the shared cells are plain Counter64 / Counter32 stand-ins and
+    // config / storage are opaque: the signature below is this unit's, the `ensures` is verbatim)
+    // label: C16.link.catalogue_more.partition_create
+    pub fn link_catalogue_more_partition_create(stream_id: u32, topic_id: u32, partition_id: u32, with_segment: bool, config: Arc<SystemConfig>, storage: Arc<SystemStorage>,
+        message_expiry: IggyExpiry, messages_count_of_parent_stream: Counter, messages_count_of_parent_topic: Counter,
+        size_of_parent_stream: Counter, size_of_parent_topic: Counter, segments_count_of_parent_stream: Counter32,
+        created_at: IggyTimestamp) -> (r: Partition)
+        ensures r.stream_id == stream_id && r.topic_id == topic_id && r.partition_id == partition_id,
+    {
+        Partition::create(stream_id, topic_id, partition_id, with_segment, config, storage, message_expiry, messages_count_of_parent_stream,
+            messages_count_of_parent_topic, size_of_parent_stream, size_of_parent_topic, segments_count_of_parent_stream, created_at)
+    }
+}
